@@ -875,6 +875,17 @@ func fieldDecrements(f *ssa.Function) []fieldDecrement {
 			return
 		}
 		b, ok := st.Val.(*ssa.BinOp)
+		// `x.F += delta` with a signed delta parameter: the helper form of a decrement (an unsigned delta cannot go down)
+		if ok && b.Op == token.ADD {
+			if p, isP := strip(b.Y).(*ssa.Parameter); isP {
+				if bt, isB := p.Type().Underlying().(*types.Basic); isB && bt.Info()&types.IsInteger != 0 && bt.Info()&types.IsUnsigned == 0 {
+					if ld, isL := b.X.(*ssa.UnOp); isL && ld.Op == token.MUL && trimAddr(accessPath(ld.X)) == trimAddr(accessPath(st.Addr)) {
+						out = append(out, fieldDecrement{Instr: i, Field: fld, Unsigned: false})
+					}
+				}
+			}
+			return
+		}
 		if !ok || b.Op != token.SUB {
 			return
 		}
@@ -1254,7 +1265,7 @@ func storesToForeignStructs(f *ssa.Function, pred func(*types.Named) bool) []*ss
 // only the writing process — from its cache — can read what it writes.
 func ruleC01LatestFetchedUnderOwnID(c *Ctx) {
 	u := c.U1
-	c.rule("C01.latest-fetched-under-the-partitions-own-id", "in package appencryption the id handed to Metastore.LoadLatest is, at every call site and through every parameter, the result of SystemKeyID() / IntermediateKeyID() invoked on the envelope's partition field, or the ID field of a KeyMeta — never the id of another partition value (a type-asserted or embedded default partition) or a derived string", 2)
+	c.rule("C01.latest-fetched-under-the-partitions-own-id", "in package appencryption the id handed to Metastore.LoadLatest is, at every call site and through every parameter, the result of SystemKeyID() / IntermediateKeyID() invoked on the envelope's partition field, or the ID field of a KeyMeta — never the id of another partition value (a type-asserted or embedded default partition) or a derived string", 1)
 	n := 0
 	for _, f := range u.RepoFuncs {
 		root := rootFunc(f)
@@ -1343,15 +1354,7 @@ func ruleC16EveryCloseReleasesOneUsage(c *Ctx) {
 			continue
 		}
 		c.FuncsAnalysed[shortName(f)] = true
-		isStep := func(i ssa.Instruction) bool {
-			st, ok := i.(*ssa.Store)
-			if !ok {
-				return false
-			}
-			_, fld, isF := fieldAccess(st.Addr)
-			b, isB := st.Val.(*ssa.BinOp)
-			return isF && fld == "accessCounter" && isB && b.Op == spec.op
-		}
+		isStep := func(i ssa.Instruction) bool { return isCounterStore(i, spec.op) }
 		ok, tr := mustPass(f.Blocks[0], 0, func(i ssa.Instruction) bool {
 			if isStep(i) {
 				return true
@@ -1593,4 +1596,84 @@ func ruleC17EveryEnvelopeEntryConsidered(c *Ctx) {
 	if n == 0 {
 		c.unresolved("kms/entry-loops", "no element access into an envelope entry slice found")
 	}
+}
+
+// ---------------------------------------------------------------------------------------------
+// backend reads delegated to a helper of the metastore's package
+
+// isDynamoRead: i invokes GetItem* / Query* on the metastore's svc client.
+func isDynamoRead(i ssa.Instruction) bool {
+	cc := callOf(i)
+	if cc == nil || !cc.IsInvoke() {
+		return false
+	}
+	if _, fld, ok := fieldAccess(cc.Value); !ok || fld != "svc" {
+		return false
+	}
+	return strings.HasPrefix(cc.Method.Name(), "GetItem") || strings.HasPrefix(cc.Method.Name(), "Query")
+}
+
+// readHelpersOf: the same-package functions f calls statically that contain a backend read (one level).
+func readHelpersOf(f *ssa.Function) []*ssa.Function {
+	var out []*ssa.Function
+	seen := map[*ssa.Function]bool{}
+	allInstrs(f, func(i ssa.Instruction) {
+		if _, isCall := i.(*ssa.Call); !isCall {
+			return
+		}
+		g := staticCallee(i)
+		if g == nil || g.Blocks == nil || g.Pkg != f.Pkg || g == f || seen[g] {
+			return
+		}
+		if containsInstr(g, isDynamoRead) {
+			seen[g] = true
+			out = append(out, g)
+		}
+	})
+	return out
+}
+
+// maybeReturning: g reports (value[, found bool], error) — a helper that may come back with nothing.
+func maybeReturning(g *ssa.Function) bool {
+	res := g.Signature.Results()
+	if res.Len() < 2 || res.Len() > 3 || !isErrorType(res.At(res.Len()-1).Type()) {
+		return false
+	}
+	switch res.At(0).Type().Underlying().(type) {
+	case *types.Pointer, *types.Map, *types.Slice, *types.Interface:
+	default:
+		return false
+	}
+	if res.Len() == 3 {
+		b, ok := res.At(1).Type().Underlying().(*types.Basic)
+		return ok && b.Kind() == types.Bool
+	}
+	return true
+}
+
+// nothingReturn: r returns "nothing and no error": nil first result, nil error, and false for a found flag in between.
+func nothingReturn(r *ssa.Return) bool {
+	n := len(r.Results)
+	if n < 2 || !isNilValue(returnedValue(r, 0)) || !isNilValue(returnedValue(r, n-1)) {
+		return false
+	}
+	if n == 3 {
+		k, isC := constOf(returnedValue(r, 1))
+		return isC && k.Kind() == constant.Bool && !constant.BoolVal(k)
+	}
+	return n == 2
+}
+
+// readsBeforeValue: every path of h to a return with a non-nil first result passes isRead.
+func readsBeforeValue(h *ssa.Function, isRead func(ssa.Instruction) bool) bool {
+	found, _ := pathSearchAt(h.Blocks[0], 0, func(i ssa.Instruction) pathAction {
+		if isRead(i) {
+			return pathStop
+		}
+		if r, ok := i.(*ssa.Return); ok && len(r.Results) > 0 && !isNilValue(returnedValue(r, 0)) {
+			return pathFound
+		}
+		return pathContinue
+	}, nil)
+	return !found
 }
